@@ -274,8 +274,10 @@ def parseFloatOk (lit : Bytes) : Bool :=
       -- value = mant * 10^(±e - |fp|)
       if mant == 0 then true
       else if neg then
-        -- mant * 10^(-e - |fp|) < threshold, certainly (mant has finitely many digits): compare exactly
-        mant < floatOverflowThreshold * 10 ^ (e + fp.length)
+        -- mant * 10^(-e - |fp|) < threshold. `mant < 10^(number of its digits)`, so for a shift of at least that many
+        -- places the comparison holds without computing the (possibly astronomically large) power
+        if e + fp.length ≥ (ip ++ fp).length then true
+        else mant < floatOverflowThreshold * 10 ^ (e + fp.length)
       else if e ≥ fp.length then
         -- guard against astronomically large exponents before computing the power
         if e - fp.length > 400 then false
